@@ -21,6 +21,25 @@ mod prefix_string;
 #[cfg(test)]
 mod tests;
 
+/// Re-exports for external conformance harnesses. Compiled only with `--cfg h3_verif`; not part of
+/// the public API.
+#[cfg(h3_verif)]
+pub mod verif {
+    pub use super::decoder::{ack_header, stream_canceled, Decoder};
+    pub use super::dynamic::{DynamicTable, Error as DynamicTableError};
+    pub use super::encoder::{set_dynamic_table_size, Encoder};
+
+    /// RFC 7541 section 5.1 prefixed integers
+    pub mod prefix_int {
+        pub use super::super::prefix_int::{decode, encode, Error};
+    }
+
+    /// RFC 7541 section 5.2 string literals
+    pub mod prefix_string {
+        pub use super::super::prefix_string::{decode, encode, Error};
+    }
+}
+
 #[derive(Debug)]
 pub enum Error {
     Encoder(EncoderError),
